@@ -191,7 +191,8 @@ def rule_computed(ctx) -> None:
     chk.decide(ok2, "C12.computed-functions", f2.qual, "keeps bits 0..7 and 16..31 and writes the complement of bits 0..7 into bits 8..15", f"{b2[:32] if b2 else None}", "bit 8+i = not bit i", A.loc(PFR, f2.node))
     cr = ctx.own(PFR, "BaseConfigArea", "compute_register")
     sv = [c for c in A.calls_in(cr.node, "set_value")]
-    ok = bool(sv) and [norm(a) for a in sv[0].args] == ["method_ref(reg.get_value(True))", "True"] and isinstance(A.body_of(cr.node)[0], ast.If) and A.always_raises(A.body_of(cr.node)[0].orelse)
+    guard = [n for n in ast.walk(cr.node) if isinstance(n, ast.If) and "hasattr(self, method)" in norm(n.test) and (A.always_raises(n.body) or (n.orelse and A.always_raises(n.orelse)))]
+    ok = bool(sv) and [norm(a) for a in sv[0].args] == ["method_ref(reg.get_value(True))", "True"] and len(guard) == 1
     chk.decide(ok, "C12.computed-functions", cr.qual, "register := method(raw value), stored raw; unknown method raises", norm(sv[0]) if sv else "", "reg.set_value(method_ref(reg.get_value(True)), True)", A.loc(PFR, cr.node))
     sc = ctx.own(PFR, "BaseConfigArea", "set_config")
     body = norm(sc.node)
